@@ -977,6 +977,10 @@ func (r *transformingReader) Read(data []byte) (n int, err error) {
 		var err error
 		if len(data) > offset && r.buffer != nil {
 			n, err = r.buffer.Read(data[offset:])
+			if errors.Is(err, io.EOF) {
+				// only this message is exhausted (e.g. it is empty), not the stream
+				err = nil
+			}
 		}
 		if offset+n > 0 {
 			return offset + n, err
